@@ -4,7 +4,7 @@ set -eu
 HERE="$(cd "$(dirname "$0")" && pwd)"
 export CARGO_NET_OFFLINE=true
 cd "$HERE/harness"
-[ -f Cargo.lock ] || cp /repo/Cargo.lock Cargo.lock
+[ -f Cargo.lock ] || cp "${VERIF_REPO:-/repo}/Cargo.lock" Cargo.lock
 cargo build --release --offline --bin vcheck
 # companion binary of C17 (shares the target directory, so dependencies are compiled once)
 cd "$HERE/harness-dyn"
